@@ -25,6 +25,7 @@ import (
 	gosync "sync"
 	"syscall"
 	"testing"
+	"testing/synctest"
 
 	"github.com/dgraph-io/badger/v4/vshim/sched"
 	"github.com/dgraph-io/badger/v4/vshim/vlib"
@@ -598,6 +599,7 @@ func recoverImage(t *testing.T, j *vlib.Job, cr *crashRun, img crashImage, ops [
 		}
 	post:
 		if oracle == "c14" || oracle == "all" {
+			synctest.Wait() // recovery flushes the replayed memtables in the background: let it finish
 			if c, d := lsmCheckStructure(&seqExec{db: db}); c != "" {
 				class, desc = c, fmt.Sprintf("image %s of history %v: %s", img.Name, cr.hist, d)
 				return
